@@ -85,6 +85,15 @@ Definition send (q : qframe) : list wframe :=
 
 Definition sends (l : list qframe) : list wframe := flat_map send l.
 
+(* what a relay writes towards an endpoint: a frame released from a queue (written by the writer
+   goroutine through send; the ghost header list stays visible to the theorems) or a frame written
+   directly by processFrame / sendWindowUpdates *)
+Inductive oframe := OQ (q : qframe) | OW (w : wframe).
+Definition wire1 (o : oframe) : list wframe := match o with OQ q => send q | OW w => [w] end.
+Definition wire (l : list oframe) : list wframe := flat_map wire1 l.
+Definition oq (l : list qframe) : list oframe := map OQ l.
+Definition ow (l : list wframe) : list oframe := map OW l.
+
 (* ------------------------------------------------------------------ flow *)
 Record obuf := mkOb { ob_win : Z; ob_q : list qframe }.
 
@@ -289,28 +298,30 @@ Section Codec.
 
   Definition with_flow (r : relay) (fl : flow) : relay := mkRelay fl (r_cont r) (r_hbuf r) (r_dst r) (r_est r).
 
-  (* relay.header *)
-  Definition r_header (r : relay) (id : N) (fields : list field) (es : bool) (p : prio) : option (relay * list qframe) :=
+  (* relay.header: (relay, frames released, the frame that was queued) *)
+  Definition r_header (r : relay) (id : N) (fields : list field) (es : bool) (p : prio) : option (relay * list qframe * qframe) :=
     let '(bytes, est') := enc (r_est r) fields in
     let maxp := f_max (r_flow r) in
     let first := if prio_is_zero p then maxp else u32_sub maxp headers_priority_len in
     match split_chunks first maxp bytes with
     | None => None
     | Some ch =>
-        let '(fl, em) := enqueue_emit (QHdr id es p fields ch) (r_flow r) in
-        Some (mkRelay fl (r_cont r) (r_hbuf r) (r_dst r) est', em)
+        let q := QHdr id es p fields ch in
+        let '(fl, em) := enqueue_emit q (r_flow r) in
+        Some (mkRelay fl (r_cont r) (r_hbuf r) (r_dst r) est', em, q)
     end.
 
   (* relay.pushPromise *)
-  Definition r_push (r : relay) (id promise : N) (fields : list field) : option (relay * list qframe) :=
+  Definition r_push (r : relay) (id promise : N) (fields : list field) : option (relay * list qframe * qframe) :=
     let '(bytes, est') := enc (r_est r) fields in
     let maxp := f_max (r_flow r) in
     let first := u32_sub maxp push_promise_meta_len in
     match split_chunks first maxp bytes with
     | None => None
     | Some ch =>
-        let '(fl, em) := enqueue_emit (QPush id promise fields ch) (r_flow r) in
-        Some (mkRelay fl (r_cont r) (r_hbuf r) (r_dst r) est', em)
+        let q := QPush id promise fields ch in
+        let '(fl, em) := enqueue_emit q (r_flow r) in
+        Some (mkRelay fl (r_cont r) (r_hbuf r) (r_dst r) est', em, q)
     end.
 
   Record pair := mkPair { toC : relay; toS : relay }.
@@ -318,14 +329,15 @@ Section Codec.
   Definition set_toward (x : side) (r : relay) (p : pair) : pair :=
     match x with Cl => mkPair r (toS p) | Sv => mkPair (toC p) r end.
 
-  Record sres := mkRes { s_pair : pair; s_toC : list wframe; s_toS : list wframe; s_status : status }.
+  (* s_enq (ghost): the frames the reading relay put into its queues during this step, in order *)
+  Record sres := mkRes { s_pair : pair; s_toC : list oframe; s_toS : list oframe; s_status : status; s_enq : list qframe }.
 
   (* result: [me] is the relay that read the frame (it sends towards [other from]),
      [peer] the relay sending towards [from] *)
-  Definition res (from : side) (me peer : relay) (to_from to_other : list wframe) (st : status) : sres :=
+  Definition res (from : side) (me peer : relay) (to_from to_other : list oframe) (st : status) (enq : list qframe) : sres :=
     match from with
-    | Cl => mkRes (mkPair peer me) to_from to_other st
-    | Sv => mkRes (mkPair me peer) to_other to_from st
+    | Cl => mkRes (mkPair peer me) to_from to_other st enq
+    | Sv => mkRes (mkPair me peer) to_other to_from st enq
     end.
 
   (* the ForeachSetting callback of processFrame, applied to the peer relay.
@@ -349,7 +361,7 @@ Section Codec.
         else apply_settings rest orders peer acc
     end.
 
-  Definition complete (me : relay) (id : N) (fields : list field) : option (relay * list qframe) :=
+  Definition complete (me : relay) (id : N) (fields : list field) : option (relay * list qframe * qframe) :=
     match r_cont me with
     | Some (CHdr p es) => r_header me id fields (if cont_end_stream_from_frame then es else true) p
     | Some (CPush pr) => r_push me id pr fields
@@ -360,75 +372,78 @@ Section Codec.
   Definition pstep (p : pair) (from : side) (f : rframe) (orders : list (list N)) : sres :=
     let me := toward (other from) p in
     let peer := toward from p in
-    let fin (o : option (relay * list qframe)) (me0 : relay) : sres :=
+    let fin (o : option (relay * list qframe * qframe)) (me0 : relay) : sres :=
       match o with
-      | Some (me', em) => res from me' peer [] (sends em) Ok
-      | None => res from me0 peer [] [] Diverge
+      | Some (me', em, q) => res from me' peer [] (oq em) Ok [q]
+      | None => res from me0 peer [] [] Diverge []
       end in
     match f with
     | RData id es d flen =>
         let c := if credit_frame_length then flen else len d in
         let wu := if c =? 0 then [] else [WWinUpd 0 c; WWinUpd id c] in
-        match fl_data id d es (r_flow me) with
-        | None => res from me peer wu [] Diverge
-        | Some (fl, em) => res from (with_flow me fl) peer wu (sends em) Ok
+        match data_pieces (S (length d)) (f_max (r_flow me)) id d es with
+        | None => res from me peer (ow wu) [] Diverge []
+        | Some ps =>
+            let fl0 := r_flow me in
+            let '(fl, em) := enqueue_all ps (with_buf fl0 id (buf_or_new fl0 id)) in   (* = fl_data *)
+            res from (with_flow me fl) peer (ow wu) (oq em) Ok ps
         end
     | RHeaders id es eh pr frag =>
         if eh then
           let '(o, dst') := dec (r_dst me) frag in
           let me1 := mkRelay (r_flow me) (r_cont me) (r_hbuf me) dst' (r_est me) in
           match o with
-          | None => res from me1 peer [] [] Err
+          | None => res from me1 peer [] [] Err []
           | Some fields => fin (r_header me1 id fields es pr) me1
           end
-        else res from (mkRelay (r_flow me) (Some (CHdr pr es)) frag (r_dst me) (r_est me)) peer [] [] Ok
+        else res from (mkRelay (r_flow me) (Some (CHdr pr es)) frag (r_dst me) (r_est me)) peer [] [] Ok []
     | RPush id promise eh frag =>
         if eh then
           let '(o, dst') := dec (r_dst me) frag in
           let me1 := mkRelay (r_flow me) (r_cont me) (r_hbuf me) dst' (r_est me) in
           match o with
-          | None => res from me1 peer [] [] Err
+          | None => res from me1 peer [] [] Err []
           | Some fields => fin (r_push me1 id promise fields) me1
           end
-        else res from (mkRelay (r_flow me) (Some (CPush promise)) frag (r_dst me) (r_est me)) peer [] [] Ok
+        else res from (mkRelay (r_flow me) (Some (CPush promise)) frag (r_dst me) (r_est me)) peer [] [] Ok []
     | RCont id eh frag =>
         let hb := r_hbuf me ++ frag in
         if eh then
           let '(o, dst') := dec (r_dst me) hb in
           let me1 := mkRelay (r_flow me) (r_cont me) hb dst' (r_est me) in
           match o with
-          | None => res from me1 peer [] [] Err
+          | None => res from me1 peer [] [] Err []
           | Some fields =>
               match r_cont me1 with
-              | None => res from me1 peer [] [] Panic
+              | None => res from me1 peer [] [] Panic []
               | Some _ => fin (complete me1 id fields) me1
               end
           end
-        else res from (mkRelay (r_flow me) (r_cont me) hb (r_dst me) (r_est me)) peer [] [] Ok
+        else res from (mkRelay (r_flow me) (r_cont me) hb (r_dst me) (r_est me)) peer [] [] Ok []
     | RPrio id pr =>
         let '(fl, em) := enqueue_emit (QPrio id pr) (r_flow me) in
-        res from (with_flow me fl) peer [] (sends em) Ok
+        res from (with_flow me fl) peer [] (oq em) Ok [QPrio id pr]
     | RRst id code =>
         let '(fl, em) := enqueue_emit (QRst id code) (r_flow me) in
-        res from (with_flow me fl) peer [] (sends em) Ok
+        res from (with_flow me fl) peer [] (oq em) Ok [QRst id code]
     | RSettings ack l =>
-        if ack then res from me peer [] [WSettingsAck] Ok
+        if ack then res from me peer [] [OW WSettingsAck] Ok []
         else
           let '(peer', em, ok) := apply_settings l orders peer [] in
-          if ok then res from me peer' (sends em) [WSettings l] Ok
-          else res from me peer' (sends em) [] Err
-    | RPing ack d => res from me peer [] [WPing ack d] Ok
-    | RGoAway last code dbg => res from me peer [] [WGoAway last code dbg] Ok
+          if ok then res from me peer' (oq em) [OW (WSettings l)] Ok []
+          else res from me peer' (oq em) [] Err []
+    | RPing ack d => res from me peer [] [OW (WPing ack d)] Ok []
+    | RGoAway last code dbg => res from me peer [] [OW (WGoAway last code dbg)] Ok []
     | RWinUpd id inc =>
         let '(fl, em) := update_window id inc (hd [] orders) (r_flow peer) in
-        res from me (with_flow peer fl) (sends em) [] Ok
-    | RUnknown => res from me peer [] [] Err
+        res from me (with_flow peer fl) (oq em) [] Ok []
+    | RUnknown => res from me peer [] [] Err []
     end.
 
   Record event := mkEv { e_from : side; e_frame : rframe; e_orders : list (list N) }.
 
   (* one trace entry: the event and what each endpoint was sent because of it *)
-  Record tstep := mkT { t_ev : event; t_toC : list wframe; t_toS : list wframe; t_status : status }.
+  Record tstep := mkT { t_ev : event; t_toC : list oframe; t_toS : list oframe; t_status : status; t_enq : list qframe }.
 
   (* relayFrames: frames are processed until processFrame fails *)
   Fixpoint run (p : pair) (evs : list event) : pair * list tstep :=
@@ -436,7 +451,7 @@ Section Codec.
     | [] => (p, [])
     | e :: r =>
         let s := pstep p (e_from e) (e_frame e) (e_orders e) in
-        let t := mkT e (s_toC s) (s_toS s) (s_status s) in
+        let t := mkT e (s_toC s) (s_toS s) (s_status s) (s_enq s) in
         match s_status s with
         | Ok => let '(p', ts) := run (s_pair s) r in (p', t :: ts)
         | _ => (s_pair s, [t])
@@ -463,6 +478,7 @@ Arguments s_pair {dstate estate}.
 Arguments s_toC {dstate estate}.
 Arguments s_toS {dstate estate}.
 Arguments s_status {dstate estate}.
+Arguments s_enq {dstate estate}.
 Arguments res {dstate estate}.
 Arguments relay0 {dstate estate}.
 Arguments r_header {dstate estate}.
